@@ -190,6 +190,31 @@ theorem kmerge_perm (desc : Bool) (runs : List Run) : (kmerge desc runs).Perm ru
     simp only [kmerge, List.foldr_cons, List.flatten_cons]
     exact (List.merge_perm_append _).trans (List.Perm.append_left r ih)
 
+theorem sublist_merge_left {α} (s : α → α → Bool) (l r : List α) : l.Sublist (List.merge l r s) := by
+  fun_induction List.merge l r s with
+  | case1 r => simp
+  | case2 l _ => simp
+  | case3 a l b r h ih => exact List.Sublist.cons_cons _ ih
+  | case4 a l b r h ih => exact List.Sublist.cons _ ih
+
+theorem sublist_merge_right {α} (s : α → α → Bool) (l r : List α) : r.Sublist (List.merge l r s) := by
+  fun_induction List.merge l r s with
+  | case1 r => simp
+  | case2 l _ => simp
+  | case3 a l b r h ih => exact List.Sublist.cons _ ih
+  | case4 a l b r h ih => exact List.Sublist.cons_cons _ ih
+
+/-- every source is consumed front to back: it is a sublist of the merged sequence -/
+theorem kmerge_sublist (desc : Bool) (runs : List Run) (r : Run) (hr : r ∈ runs) :
+    r.Sublist (kmerge desc runs) := by
+  induction runs with
+  | nil => simp at hr
+  | cons x rest ih =>
+    simp only [kmerge, List.foldr_cons]
+    rcases List.mem_cons.1 hr with rfl | h
+    · exact sublist_merge_left _ _ _
+    · exact (ih h).trans (sublist_merge_right _ _ _)
+
 theorem pair_sublist_of_lt {α} (l : List α) (i j : Nat) (hij : i < j) (hj : j < l.length) :
     List.Sublist [l[i], l[j]] l := by
   have e : l = l.take i ++ l[i] :: l.drop (i + 1) := by simp
